@@ -50,7 +50,8 @@ RULE = ('Configuration grid reconnection on/off x reconnection_attempts '
         'suspended) - no effort may follow; a connect_error handler that '
         'raises at its j-th invocation during the effort - the effort goes '
         'on.'
-        ' The judged connection can be preceded by an earlier life of the same client object that the server ended (optionally with a failing disconnect handler).')
+        ' The judged connection can be preceded by an earlier life of the same client object that the server ended (optionally with a failing disconnect handler).'
+        ' Cause sdisc_partial (asyncio, >=2 namespaces): the server ends one namespace and the transport is lost while the disconnect handler of that namespace is suspended - an accidental loss, exactly one effort starts.')
 ASSUMPTIONS = [
     'waiting is observed through the wait primitives, never by wall clock',
     '"retries until success" is checked as bounded safety (finite patterns; '
@@ -107,7 +108,7 @@ def strategy(tier):
         # suspended)
         'cause': st.sampled_from(['lose', 'lose', 'lose', 'disconnect',
                                   'sdisc_last', 'close', 'sdisc_overlap',
-                                  'lose_app_disc']),
+                                  'lose_app_disc', 'sdisc_partial']),
         'app_disc_by': st.sampled_from(['handler', 'task']),
         # ('kicked': the server accepts the returning client and ends one
         # of its namespaces right behind the acceptance)
@@ -662,6 +663,25 @@ def _run(case, h):
         h.loop.run_until_idle()
         slow_disc[0] = False
         labels['server_disconnect_overlaps_the_loss'] = True
+    elif cause == 'sdisc_partial':
+        # the server ends ONE of several namespaces and the transport is
+        # lost while that namespace's asynchronous disconnect handler is
+        # still running: the other namespaces were not being ended by
+        # anyone, this is an accidental loss
+        if aio and len(nss) >= 2:
+            from engineio import packet as ep
+            slow_disc[0] = True
+            for f in wire.frames(wire.DISCONNECT, nss[0]):
+                h.loop.spawn(h.eio._receive_packet(ep.Packet(ep.MESSAGE, f)))
+            h.loop.step()
+            h.loop.step()
+            h.lose()
+            h.loop.run_until_idle()
+            slow_disc[0] = False
+            labels['partial_server_disconnect_overlaps_the_loss'] = True
+        else:
+            h.lose()
+        cause = 'lose'
     elif cause == 'disconnect':
         h.do(sio.disconnect())
     elif cause == 'close':
